@@ -758,6 +758,8 @@ func (w *gcsWorld) stepUpload(o *GOp) (string, string) {
 					if rg, want := resp.Header.Get("Range"), fmt.Sprintf("bytes=0-%d", len(recv)-1); rg != want {
 						return fail("header", "chunk %d: Range header %q, want %q", i, rg, want)
 					}
+				} else if rg := resp.Header.Get("Range"); rg != "" {
+					return fail("header", "chunk %d: nothing has been received yet, but the answer carries the Range header %q", i, rg)
 				}
 				continue
 			}
